@@ -114,7 +114,8 @@ EXPORT errno_t _strcasecmp_s_chk(const char *dest, rsize_t dmax,
         dmax--;
     }
 
-    *resultp = toupper(*udest) - toupper(*usrc);
+    if (dmax) /* else equal within dmax: dest[dmax] is not read */
+        *resultp = toupper(*udest) - toupper(*usrc);
     return RCNEGATE(EOK);
 }
 #ifdef __KERNEL__
